@@ -64,6 +64,7 @@ def required_cells(tier):
     for a, b in PAIRS:
         req["pair:%s,%s" % (a, b)] = 50 if q else 1000
     req["none-operand"] = 50
+    req["history:result-moved-then-asked-again"] = 200
     for hc in ("used-then-moved/receiver", "used-then-moved/returned", "moved/receiver"):
         req["pose:history/" + hc] = 30
     return req
@@ -150,6 +151,26 @@ def judge(case):
                     "%s and %s denote different sets (%s): %s vs %s" % (outs[0][0], outs[i][0], why,
                                                                       C.show_short(outs[0][1], 160), C.show_short(outs[i][1], 160)))
             break
+    if outs and mu.viol is None and case.get("ls", 0) % 4 == 0:
+        # a result that is a fresh object (not an operand, not part of one) is moved by the caller;
+        # asking the same question again must give the same answer in every form
+        r0, e0, _ = M.call(G.intersection, x, y)
+        if e0 is None and r0 is not None and r0 is not x and r0 is not y and hasattr(r0, "move"):
+            before = (M.snap(x), M.snap(y))
+            want = lower(r0)
+            try:
+                r0.move(G.Vector(0.75, -1.25, 2.5))
+            except Exception:
+                pass
+            if (M.snap(x), M.snap(y)) == before:          # (results that share state with an operand are left alone)
+                mu.cell("history:result-moved-then-asked-again")
+                for tag, fn, p_, q_ in forms:
+                    r1, e1, _ = M.call(fn, p_, q_)
+                    ok, why = same_set(lower(r1), want) if e1 is None else (False, repr(e1))
+                    if not ok:
+                        mu.fail("%s:answer-changes-after-caller-moved-an-earlier-result" % kb_,
+                                "%s after the caller moved the object returned by an earlier identical call: %s" % (tag, why))
+                        break
     if outs and mu.viol is None:
         same, _ = same_set(outs[0][1], exp)
         if not same:
